@@ -129,7 +129,7 @@ PROPS["C08"]["streams"] = [S("stable", 120, 3000, vm=(5, 60), vm_maxlen=5000), S
 
 # Props/Link.v (byte level <-> abstract files) is re-checked and audited with the properties whose
 # statements are about abstract files and whose content is bytes on disk
-for _p in ("C01", "C02", "C05"):
+for _p in ("C01", "C02", "C05", "C10"):
     PROPS[_p]["extra_props"] = ["Link"]
 
 PROPS['C14'] = {'assumptions': ['single writer goroutine (StoreLogs/DeleteRange are issued by one thread of the schedule); any number of readers, stable-store callers and '
